@@ -1,6 +1,7 @@
 from common import COMMON_ASSUME
 
 PROP = dict(
+    technique='property-based testing: differential against independently written reference encoders (from the format documents), canonicity and monotonicity relations',
     harness=['c04_wire.c', 'vf_ref.c'],
     level_text=('generated-input search against an independent reference: '
                 'every forward put entry point (functions and macros) of the '
